@@ -35,7 +35,7 @@ def run_case(case: dict[str, Any]) -> dict[str, Any]:  # noqa: C901, PLR0912
     n, r_n, p_n = case["n"], case["R"], case["P"]
     cfg: dict[str, Any] = {
         "variables": {"initial_values": case["x"], "lower_bounds": case["lb"], "upper_bounds": case["ub"]},
-        "realizations": {"weights": [1.0] * r_n},
+        "realizations": {"weights": case.get("weights") or [1.0] * r_n},
         "gradient": {"number_of_perturbations": p_n, "perturbation_magnitudes": case["magnitudes"],
                      "perturbation_types": case["types"], "boundary_types": case["boundary"]},
         "samplers": [{"method": f"design{k}/fixed"} for k in range(case.get("S", 1))],
@@ -181,7 +181,12 @@ def hypothesis_shard(item: dict[str, Any]) -> Collector:
             assign = [draw(st.integers(-1, s_n - 1)) for _ in range(n)]
             if all(a < 0 for a in assign):
                 assign[0] = s_n - 1
-        return {"vtypes": [draw(st.sampled_from([1, 2])) for _ in range(n)] if draw(st.integers(0, 3)) == 0 else None,
+        weights = None
+        if r_n > 1 and draw(st.integers(0, 2)) == 0:  # realizations without weight are perturbed like the others
+            weights = [draw(st.sampled_from([0.0, 0.0, 1.0, 2.0])) for _ in range(r_n)]
+            if not any(weights):
+                weights[0] = 1.0
+        return {"weights": weights, "vtypes": [draw(st.sampled_from([1, 2])) for _ in range(n)] if draw(st.integers(0, 3)) == 0 else None,
                 "split": draw(st.sampled_from([None, None, "same", "near", "far"])), "S": s_n, "assign": assign, "nocopy": draw(st.booleans()), "n": n, "R": r_n, "P": p_n, "x": x, "lb": lb, "ub": ub, "types": types, "magnitudes": mags,
                 "boundary": [draw(st.integers(1, 3)) for _ in range(n)], "samples": samples,
                 "scales": [draw(st.sampled_from([0.5, 2.0, 10.0, 3.0])) for _ in range(n)] if scaled else None,
